@@ -96,10 +96,11 @@ type LoopSpec struct {
 }
 
 type LetSpec struct {
-	Name string
-	E    Expr
-	Loop int
-	Text string
+	Name   string
+	E      Expr
+	Loop   int
+	Text   string
+	Before bool
 }
 
 type CallSpec struct {
@@ -134,6 +135,7 @@ type FuncContract struct {
 	PanicsIf []*Clause
 	Opaque   bool
 	Lets     []*LetSpec
+	FuncParams map[string]*FuncContract
 	MathInts string // non-empty: machine arithmetic treated as mathematical in this function (assumption, with reason)
 }
 
@@ -180,7 +182,14 @@ type GlobalFact struct {
 	Pkg  string
 }
 
+type GhostComp struct {
+	Name string
+	Type string
+	Pkg  string
+}
+
 type ContractFile struct {
+	Ghosts  []*GhostComp
 	Pkg     string
 	Path    string
 	Funcs   []*FuncContract
@@ -675,7 +684,7 @@ func isPkgQual(s string) bool { return pkgQuals[s] }
 
 // ---------- file level ----------
 
-var itemKeywords = map[string]bool{"func": true, "iface": true, "extern": true, "spec": true, "lemma": true, "axiom": true, "smt": true, "global": true}
+var itemKeywords = map[string]bool{"func": true, "iface": true, "extern": true, "spec": true, "lemma": true, "axiom": true, "smt": true, "global": true, "ghost": true}
 
 // extractContractText returns the //@ payload of a file with line numbers kept
 // (non-contract lines become empty lines).
@@ -734,6 +743,19 @@ func parseContractSource(path, src string) (*ContractFile, error) {
 			}
 			lm.File = path
 			cf.Lemmas = append(cf.Lemmas, lm)
+		case "ghost":
+			// ghost comp NAME type : ghost state attached to object references
+			p.adv()
+			if !p.isId("comp") {
+				return nil, p.errf("expected 'ghost comp NAME type'")
+			}
+			p.adv()
+			name := p.adv().s
+			ty, err := p.parseTypeText()
+			if err != nil {
+				return nil, err
+			}
+			cf.Ghosts = append(cf.Ghosts, &GhostComp{Name: name, Type: ty})
 		case "smt":
 			p.adv()
 			if p.peek().k != "raw" {
@@ -780,7 +802,7 @@ func (p *parser) textOf(a, b int) string {
 
 var clauseKeywords = map[string]bool{"requires": true, "ensures": true, "modifies": true, "decreases": true, "pure": true,
 	"mode": true, "props": true, "loop": true, "call": true, "trusted": true, "noovf": true, "invariant": true,
-	"allocates": true, "uses": true, "panics_if": true, "terminates": true, "opaque": true, "let": true, "mathints": true}
+	"allocates": true, "uses": true, "panics_if": true, "terminates": true, "opaque": true, "let": true, "mathints": true, "funcparam": true}
 
 func (p *parser) atItemEnd() bool {
 	t := p.peek()
@@ -798,6 +820,10 @@ func (p *parser) parseFuncKey() (string, error) {
 			sb.WriteString("*")
 		}
 		sb.WriteString(p.adv().s)
+		for p.isOp(".") {
+			p.adv()
+			sb.WriteString("." + p.adv().s)
+		}
 		if err := p.expectOp(")"); err != nil {
 			return "", err
 		}
@@ -988,6 +1014,67 @@ func (p *parser) parseFuncContract() (*FuncContract, error) {
 			for p.peek().k == "id" && !clauseKeywords[p.peek().s] && !itemKeywords[p.peek().s] {
 				fc.Uses = append(fc.Uses, p.adv().s)
 			}
+		case "funcparam":
+			// contract of calls through a function-typed parameter: funcparam NAME(params) (results) clauses... end
+			sub := &FuncContract{Kind: "funcparam", Loops: map[int]*LoopSpec{}}
+			sub.Key = p.adv().s
+			if p.isOp("(") {
+				p.adv()
+				bs, err := p.parseBinders(")")
+				if err != nil {
+					return nil, err
+				}
+				p.adv()
+				sub.Params = bs
+				if p.isOp("(") {
+					p.adv()
+					rs, err := p.parseBinders(")")
+					if err != nil {
+						return nil, err
+					}
+					p.adv()
+					sub.Results = rs
+				}
+			}
+			for !p.isId("end") {
+				if p.atItemEnd() {
+					return nil, p.errf("funcparam %s: missing 'end'", sub.Key)
+				}
+				kw := p.adv().s
+				switch kw {
+				case "requires":
+					c, err := p.parseClauseExpr("requires")
+					if err != nil {
+						return nil, err
+					}
+					sub.Requires = append(sub.Requires, c)
+				case "ensures":
+					c, err := p.parseClauseExpr("ensures")
+					if err != nil {
+						return nil, err
+					}
+					sub.Ensures = append(sub.Ensures, c)
+				case "allocates":
+					sub.Allocates = true
+				case "pure":
+					sub.Pure = true
+				case "modifies":
+					var sb strings.Builder
+					sb.WriteString(p.adv().s)
+					for p.isOp(".") {
+						p.adv()
+						sb.WriteString("." + p.adv().s)
+					}
+					sub.Modifies = append(sub.Modifies, sb.String())
+				default:
+					return nil, p.errf("funcparam %s: unexpected %q", sub.Key, kw)
+				}
+			}
+			p.adv()
+			if fc.FuncParams == nil {
+				fc.FuncParams = map[string]*FuncContract{}
+			}
+			fc.FuncParams[sub.Key] = sub
 		case "let":
 			// let NAME = expr @after loop K
 			name := p.adv().s
@@ -1000,9 +1087,10 @@ func (p *parser) parseFuncContract() (*FuncContract, error) {
 				return nil, err
 			}
 			txt := p.textOf(st, p.p)
-			if p.peek().k != "at" || p.peek().s != "after" {
-				return nil, p.errf("let needs @after loop K")
+			if p.peek().k != "at" || (p.peek().s != "after" && p.peek().s != "before") {
+				return nil, p.errf("let needs @after loop K or @before loop K")
 			}
+			before := p.peek().s == "before"
 			p.adv()
 			if !p.isId("loop") {
 				return nil, p.errf("let needs @after loop K")
@@ -1012,7 +1100,7 @@ func (p *parser) parseFuncContract() (*FuncContract, error) {
 			if err != nil {
 				return nil, p.errf("loop ordinal expected")
 			}
-			fc.Lets = append(fc.Lets, &LetSpec{Name: name, E: e, Loop: ord, Text: txt})
+			fc.Lets = append(fc.Lets, &LetSpec{Name: name, E: e, Loop: ord, Text: txt, Before: before})
 		case "trusted":
 			if p.peek().k != "str" {
 				return nil, p.errf("trusted needs a reason string")
